@@ -72,8 +72,8 @@ func tableCustom(ctx *Ctx, decode bool) *Extra {
 
 func init() {
 	Register(&Spec{
-		ID:    "C01",
-		Level: "model_checking",
+		ID:          "C01",
+		Level:       "model_checking",
 		Explanation: "two parts. (a) wiring, symbolic: bounded symbolic execution (bit-precise floats, tables as uninterpreted functions refined with ground facts) shows that every public decode entry point - From8Bit, From16Bit on first use (sync.Once path) and later (fast path), ColorFromNRGBA/RGBA/EncodedColor on opaque colours, Display P3's through srgb - returns that package's table entry at the given code, for all 2^8/2^16 codes at once. (b) table obligations, ground and exhaustive: the tables built by the executor from the current SSA are compared entry by entry, by the solver in exact integer arithmetic, with the published EOTFs (sRGB IEC 61966-2-1 incl. its 0.04045 threshold, Adobe RGB 563/256, ROMM 1.8 with 16*Et) within 3e-7, plus exact end points, strict monotonicity and T8[v]=T16[257v]",
 		Bounds: func(tier string) map[string]interface{} {
 			return map[string]interface{}{"codes": "all 256 + 65536 codes x 3 curves (Display P3 is shown to use sRGB's functions)", "entry_points": "From8Bit, From16Bit (first use and fast path), ColorFromNRGBA, ColorFromRGBA, ColorFromEncodedColor on opaque colours, per package", "outside": "non-opaque colours (C14), other architectures' math.Pow"}
